@@ -32,6 +32,7 @@ type Entity struct {
 	Epilogue  []byte
 	Depth     int
 	Problems  []string // structural problems (not line-discipline; see Lint)
+	Notes     []string // obsolete-but-harmless syntax seen (e.g. whitespace-only continuation lines)
 	// HasBlankLine is true when the header section was terminated by an empty line.
 	HasBlankLine bool
 }
@@ -118,7 +119,7 @@ func parseEntity(data []byte, depth int, outer []string) *Entity {
 				cur.Lines = append(cur.Lines, line)
 			}
 			if strings.Trim(line, " \t") == "" {
-				e.Problems = append(e.Problems, fmt.Sprintf("whitespace-only continuation line at %d", pos))
+				e.Notes = append(e.Notes, fmt.Sprintf("whitespace-only continuation line at %d", pos))
 			}
 		} else {
 			colon := strings.IndexByte(line, ':')
@@ -455,15 +456,17 @@ func DecodeWords(s string) (string, []string) {
 			j++
 		}
 		word := s[i:j]
-		dec, cs, ok := decodeMaybeWords(word)
-		if ok {
-			if !lastWasEW {
+		dec, cs, endsEW := decodeMaybeWords(word)
+		startsEW := strings.HasPrefix(word, "=?") && cs != nil
+		switch {
+		case cs != nil:
+			if !(lastWasEW && startsEW) {
 				out.WriteString(pendingWS)
 			}
 			out.WriteString(dec)
 			charsets = append(charsets, cs...)
-			lastWasEW = true
-		} else {
+			lastWasEW = endsEW
+		default:
 			out.WriteString(pendingWS)
 			out.WriteString(word)
 			lastWasEW = false
@@ -475,15 +478,61 @@ func DecodeWords(s string) (string, []string) {
 	return out.String(), charsets
 }
 
-// decodeMaybeWords decodes a blank-free token that consists of one or more encoded-words directly
-// (without whitespace) following each other, as mime.WordEncoder never emits; a single
-// encoded-word is the normal case. Quotes around the token are not handled here.
+// decodeMaybeWords handles a blank-free token. Strictly (RFC 2047 section 5) an encoded-word in
+// unstructured text is delimited by whitespace; like every practical decoder (and like Go's
+// mime.WordDecoder) this one also recognises encoded-words that are directly followed or preceded
+// by other characters such as the ", " go-mail puts between multiple values. ok is true when the
+// token ended in an encoded-word (so that whitespace up to a following encoded-word is dropped).
 func decodeMaybeWords(word string) (string, []string, bool) {
-	dec, cs, ok := decodeWord(word)
-	if ok {
+	if dec, cs, ok := decodeWord(word); ok {
 		return dec, []string{cs}, true
 	}
-	return "", nil, false
+	var sb strings.Builder
+	var charsets []string
+	i := 0
+	endsInEW := false
+	found := false
+	for i < len(word) {
+		start := strings.Index(word[i:], "=?")
+		if start < 0 {
+			break
+		}
+		start += i
+		// find the end: =?charset?e?text?=
+		q1 := strings.IndexByte(word[start+2:], '?')
+		if q1 < 0 {
+			break
+		}
+		q1 += start + 2
+		if q1+2 >= len(word) || word[q1+2] != '?' {
+			sb.WriteString(word[i : start+2])
+			i = start + 2
+			continue
+		}
+		end := strings.Index(word[q1+3:], "?=")
+		if end < 0 {
+			break
+		}
+		end += q1 + 3 + 2
+		dec, cs, ok := decodeWord(word[start:end])
+		if !ok {
+			sb.WriteString(word[i : start+2])
+			i = start + 2
+			continue
+		}
+		sb.WriteString(word[i:start])
+		sb.WriteString(dec)
+		charsets = append(charsets, cs)
+		found = true
+		i = end
+		endsInEW = i == len(word)
+	}
+	if !found {
+		return "", nil, false
+	}
+	sb.WriteString(word[i:])
+	_ = endsInEW
+	return sb.String(), charsets, endsInEW
 }
 
 func decodeWord(w string) (string, string, bool) {
@@ -750,4 +799,151 @@ func foldable(line string) bool {
 	}
 	rest = strings.TrimRight(rest, " \t")
 	return strings.ContainsAny(rest, " \t")
+}
+
+// ---------------------------------------------------------------------------------------------
+// addresses
+
+// Mailbox is a parsed RFC 5322 mailbox.
+type Mailbox struct {
+	Name string // display name, decoded (quoted-strings unescaped, encoded-words decoded)
+	Addr string // addr-spec as written between the angle brackets (or the bare addr-spec)
+}
+
+// ParseAddressList parses the subset of RFC 5322 address-list that a generator of well-formed
+// fields produces: mailboxes separated by commas, each `[phrase] "<" addr-spec ">"` or a bare
+// addr-spec; phrase words are atoms, quoted-strings or encoded-words; addr-spec local parts may be
+// quoted-strings. Comments and groups are not supported (reported as an error).
+func ParseAddressList(s string) ([]Mailbox, error) {
+	var out []Mailbox
+	i := 0
+	n := len(s)
+	skipWS := func() {
+		for i < n && (s[i] == ' ' || s[i] == '\t') {
+			i++
+		}
+	}
+	for {
+		skipWS()
+		if i >= n {
+			break
+		}
+		var words []string // decoded phrase words
+		var wordIsEW []bool
+		var addr string
+		gotAngle := false
+		for i < n && s[i] != ',' {
+			skipWS()
+			if i >= n || s[i] == ',' {
+				break
+			}
+			switch {
+			case s[i] == '"':
+				var sb strings.Builder
+				i++
+				closed := false
+				for i < n {
+					if s[i] == '\\' && i+1 < n {
+						sb.WriteByte(s[i+1])
+						i += 2
+						continue
+					}
+					if s[i] == '"' {
+						closed = true
+						i++
+						break
+					}
+					sb.WriteByte(s[i])
+					i++
+				}
+				if !closed {
+					return out, fmt.Errorf("unterminated quoted-string")
+				}
+				// a quoted-string directly followed by '@' is a quoted local part of a bare addr-spec
+				if i < n && s[i] == '@' {
+					j := i
+					for j < n && s[j] != ',' && s[j] != ' ' && s[j] != '\t' {
+						j++
+					}
+					addr = `"` + escapeQuoted(sb.String()) + `"` + s[i:j]
+					i = j
+					gotAngle = true
+					continue
+				}
+				words = append(words, sb.String())
+				wordIsEW = append(wordIsEW, false)
+			case s[i] == '<':
+				j := i + 1
+				inq := false
+				for j < n {
+					if s[j] == '\\' && inq && j+1 < n {
+						j += 2
+						continue
+					}
+					if s[j] == '"' {
+						inq = !inq
+					}
+					if s[j] == '>' && !inq {
+						break
+					}
+					j++
+				}
+				if j >= n {
+					return out, fmt.Errorf("unterminated angle-addr")
+				}
+				addr = s[i+1 : j]
+				gotAngle = true
+				i = j + 1
+			case s[i] == '(':
+				return out, fmt.Errorf("comments are not supported")
+			default:
+				j := i
+				for j < n && s[j] != ' ' && s[j] != '\t' && s[j] != ',' && s[j] != '<' && s[j] != '"' {
+					j++
+				}
+				w := s[i:j]
+				if dec, _, ok := decodeWord(w); ok {
+					words = append(words, dec)
+					wordIsEW = append(wordIsEW, true)
+				} else {
+					words = append(words, w)
+					wordIsEW = append(wordIsEW, false)
+				}
+				i = j
+			}
+		}
+		if i < n && s[i] == ',' {
+			i++
+		}
+		if !gotAngle {
+			if len(words) == 1 && strings.Contains(words[0], "@") {
+				out = append(out, Mailbox{Addr: words[0]})
+				continue
+			}
+			if len(words) == 0 {
+				continue
+			}
+			return out, fmt.Errorf("mailbox without addr-spec: %q", words)
+		}
+		var name strings.Builder
+		for k, w := range words {
+			if k > 0 && !(wordIsEW[k] && wordIsEW[k-1]) {
+				name.WriteByte(' ')
+			}
+			name.WriteString(w)
+		}
+		out = append(out, Mailbox{Name: name.String(), Addr: addr})
+	}
+	return out, nil
+}
+
+func escapeQuoted(s string) string {
+	var sb strings.Builder
+	for i := 0; i < len(s); i++ {
+		if s[i] == '"' || s[i] == '\\' {
+			sb.WriteByte('\\')
+		}
+		sb.WriteByte(s[i])
+	}
+	return sb.String()
 }
